@@ -425,8 +425,8 @@ def roundCore (R : Rounding) (a : Num) (p : Int) : Num :=
       match a with
       | .int n => .int n                        -- round(int) is the int
       | .dec _ _ => .dec i 0
-      | .dbl _ => .dbl (if i = 0 then .zero neg else ofInt R i)
-      | .flt _ => .flt (mkFloat (if i = 0 then .zero neg else ofInt R i))
+      | .dbl _ => .dbl (ofInt R i)                -- float(int): the sign of a zero is lost
+      | .flt _ => .flt (mkFloat (ofInt R i))
     else
       match a with
       | .int _ => .int (unscale neg c p).floor
@@ -477,6 +477,10 @@ def absNum : Num → XVal
   | .dec n s => .decimal ((n : Rat) / (p10 s : Nat))
   | .dbl d => .double d
   | .flt d => .float d
+
+/-- XDM type of a Python numeric object -/
+def numTy : Num → FOArith.Ty
+  | .int _ => .integer | .dec _ _ => .decimal | .dbl _ => .double | .flt _ => .float
 
 def modelBin (R : Rounding) (v : Ver) (op : BinOp) (a b : Num) : Except Err Num :=
   match op with
@@ -540,11 +544,13 @@ def trigF06c_un (op : UnOp) (a : Num) : Bool :=
 
 /-- F06t: the zero-divisor branch of `div`/`mod` returns a plain `float` NaN/INF, and
 `a mod ±INF` returns `a` itself, so the result is not of the promoted type -/
-def trigF06t (v : Ver) (op : BinOp) (a b : Num) : Bool :=
+def trigF06t (R : Rounding) (v : Ver) (op : BinOp) (a b : Num) : Bool :=
+  let ft := floatTyped a b
+  let (a, b) := coerce R a b          -- the code tests the operands after `get_operands`
   match op with
-  | .div => isZero b && floatTyped a b
+  | .div => isZero b && ft
   | .mod =>
-    (isZero b && floatTyped a b) ||
+    (isZero b && ft) ||
     (v != .v10 && numIsInf b && !numIsInf a && !isZero a &&
       (match a, b with
        | .int _, _ => true
@@ -553,7 +559,8 @@ def trigF06t (v : Ver) (op : BinOp) (a b : Num) : Bool :=
   | _ => false
 
 /-- F06x: in XPath 1.0 `finite mod ±INF` gives NaN instead of the dividend -/
-def trigF06x (v : Ver) (op : BinOp) (a b : Num) : Bool :=
+def trigF06x (R : Rounding) (v : Ver) (op : BinOp) (a b : Num) : Bool :=
+  let (a, b) := coerce R a b
   v == .v10 && op == .mod && numIsInf b && !numIsInf a && !numIsNan a && !isZero a
 
 /-- the exact decimal result needs more than 28 significant digits -/
